@@ -1310,6 +1310,10 @@ func (w *responseWriter) flushHeaders() {
 	// we ignore anything already written to the buffer.
 	if w.buf != nil && !hasErr {
 		w.Header().Set("Content-Length", strconv.Itoa(w.buf.Len()))
+	} else {
+		// The body is produced by the transcoder: a length the handler may have
+		// set for its own body does not apply to it.
+		w.Header().Del("Content-Length")
 	}
 	// TODO: At this point, if the server was gRPC but the client is not, we may have "Trailer"
 	//       headers reserving the use of various metadata keys in trailers. It would be
